@@ -358,6 +358,17 @@ ENTRY_POINTS = ['process_message', 'process_acquire', 'process_expire', 'check_r
                 'check_dead_peer_detection_timer', 'check_rekey_ike_sa_timer']
 
 
+# the states of an IKE_SA whose peer has not been authenticated yet (RFC 7296 1.2: before the IKE_AUTH exchange completed), by name:
+# the oracle must not be derived from the numbers the code gives its states
+PRE_AUTH_STATES = frozenset(('INITIAL', 'INIT_RES_SENT', 'INIT_REQ_SENT', 'AUTH_REQ_SENT'))
+
+
+def pre_auth_states(ctx, S):
+    for n in PRE_AUTH_STATES:
+        ctx.require(n in S.members, 'anchor vanished: IkeSa.State.%s' % n)
+    return set(PRE_AUTH_STATES)
+
+
 def typestate(ctx, esc):
     """run the typestate analysis from every entry point of IkeSa in every state (cached per ctx)"""
     ts = getattr(ctx, '_typestate', None)
@@ -369,6 +380,16 @@ def typestate(ctx, esc):
             fi = ctx.prog.func('ikesa.IkeSa.' + name)
             ts.entry_outcomes[name] = ts.run_entry(fi)
         ctx._typestate = ts
+        # two members with one value are one state (an enum alias): every `in (...)`, `==` and range() test on either of them
+        # then also admits the other, whatever the names in the source say
+        byval = {}
+        for n, v in ts.S.members.items():
+            byval.setdefault(v, []).append(n)
+        dups = sorted(sorted(ns) for ns in byval.values() if len(ns) > 1)
+        st = ctx.prog.classes.get('ikesa.IkeSa.State')
+        ctx.check(not dups, 'TS', 'the members of IkeSa.State have pairwise distinct values', key=('TS', 'state-values-distinct'),
+                  site=ctx.site(ctx.prog.func('ikesa.IkeSa.__init__'), st.node) if st is not None else None,
+                  detail={'members sharing a value': dups})
     return ts
 
 
